@@ -23,7 +23,7 @@ namespace H2T.C13
 
 /-- In normal mode, a whitespace character met when no word is pending only records a pending space (if the
     line is non-empty and none is pending yet); which whitespace character it is does not matter. -/
-theorem ws_char_normal (b : WB) (mt wt : Tag) (cur : Bool) (c : Ch) (hc : c.ws = true) (hw : b.wordlen = 0) :
+theorem ws_char_normal (b : WB) (mt wt : Tag) (cur : Bool) (c : Ch) (hc : c.ws = true) (hw : b.word.noContent = true) :
     b.addChar .normal mt wt cur c =
       .ok (if b.linelen > 0 && b.wslen = 0 then { b with spacetag := some (if cur then wt else mt), wslen := 1 } else b, cur) := by
   simp [WB.addChar, hc, hw, WS.preserve]
@@ -32,7 +32,7 @@ theorem ws_char_normal (b : WB) (mt wt : Tag) (cur : Bool) (c : Ch) (hc : c.ws =
 /-- **Runs collapse.**  Directly after a whitespace character (in normal mode, no word pending) a second
     whitespace character changes nothing: the state after `c₁ c₂` is the state after `c₁`. -/
 theorem second_ws_noop (b b1 : WB) (mt wt : Tag) (cur cur1 : Bool) (c1 c2 : Ch)
-    (h1 : c1.ws = true) (h2 : c2.ws = true) (hw : b.wordlen = 0)
+    (h1 : c1.ws = true) (h2 : c2.ws = true) (hw : b.word.noContent = true)
     (hstep : b.addChar .normal mt wt cur c1 = .ok (b1, cur1)) :
     b1.addChar .normal mt wt cur1 c2 = .ok (b1, cur1) := by
   rw [ws_char_normal b mt wt cur c1 h1 hw] at hstep
@@ -40,7 +40,7 @@ theorem second_ws_noop (b b1 : WB) (mt wt : Tag) (cur cur1 : Bool) (c1 c2 : Ch)
   simp only [Prod.mk.injEq] at hstep
   obtain ⟨hb, hcur⟩ := hstep
   subst hcur
-  have hw1 : b1.wordlen = 0 := by rw [← hb]; split <;> simp [hw]
+  have hw1 : b1.word.noContent = true := by rw [← hb]; split <;> exact hw
   rw [ws_char_normal b1 mt wt cur c2 h2 hw1]
   -- after the first whitespace either a space is pending (wslen = 1) or the line is empty: no further change
   have hcond : (decide (b1.linelen > 0) && decide (b1.wslen = 0)) = false := by
@@ -52,12 +52,12 @@ theorem second_ws_noop (b b1 : WB) (mt wt : Tag) (cur cur1 : Bool) (c1 c2 : Ch)
 
 /-- which whitespace character is used does not matter: space, tab, newline, any Unicode space -/
 theorem ws_chars_interchangeable (b : WB) (mt wt : Tag) (cur : Bool) (c1 c2 : Ch)
-    (h1 : c1.ws = true) (h2 : c2.ws = true) (hw : b.wordlen = 0) :
+    (h1 : c1.ws = true) (h2 : c2.ws = true) (hw : b.word.noContent = true) :
     b.addChar .normal mt wt cur c1 = b.addChar .normal mt wt cur c2 := by
   rw [ws_char_normal b mt wt cur c1 h1 hw, ws_char_normal b mt wt cur c2 h2 hw]
 
 /-- whitespace at the start of a line is dropped: nothing is pending afterwards -/
-theorem leading_ws_dropped (b : WB) (mt wt : Tag) (cur : Bool) (c : Ch) (hc : c.ws = true) (hw : b.wordlen = 0)
+theorem leading_ws_dropped (b : WB) (mt wt : Tag) (cur : Bool) (c : Ch) (hc : c.ws = true) (hw : b.word.noContent = true)
     (hl : b.linelen = 0) : b.addChar .normal mt wt cur c = .ok (b, cur) := by
   rw [ws_char_normal b mt wt cur c hc hw]; simp [hl]
 
@@ -72,7 +72,7 @@ theorem addChar_cur_irrelevant (b : WB) (m : WS) (t : Tag) (cur cur' : Bool) (c 
     (b.addChar m t t cur c).map Prod.fst = (b.addChar m t t cur' c).map Prod.fst := by
   unfold WB.addChar
   simp only [ite_self]
-  cases (if (c.ws && decide (b.wordlen > 0)) = true then b.flushWord m else Except.ok b) with
+  cases (if (c.ws && !b.word.noContent) = true then b.flushWord m else Except.ok b) with
   | error e => rfl
   | ok b1 =>
     simp only
